@@ -130,31 +130,31 @@ def write_fts_gff(fts, f, header=None):
         for gffattr, metaattr in copyattrs:
             if metaattr in meta:
                 meta._gff[gffattr] = meta[metaattr]
-        if ft.locs[0]._meta and hasattr(ft.locs[0].meta, '_gff'):
-            meta._gff = {k: v for k, v in meta._gff.items() + ft.locs[0].meta._gff.items()}
         if len(ft.locs) > 1 and 'ID' not in meta._gff:
             # TODO warn, test
             from random import choices
             from string import ascii_lowercase
             meta._gff.ID = ''.join(choices(ascii_lowercase, k=10))
-        seqid = quote(meta._gff.pop('seqid', '.'))
-        source = quote(meta._gff.pop('source', '.'))
-        score = meta._gff.pop('score', '.')
-        phase = meta._gff.pop('phase', '.')
-        type_ = meta._gff.pop('type', None) or meta.get('type') or '.'
+        # attributes of each location: feature attributes overridden by the location's own attributes
+        locs_meta = []
+        for loc in ft.locs:
+            loc_meta = dict(meta._gff)
+            if loc._meta and hasattr(loc.meta, '_gff'):
+                loc_meta.update(loc.meta._gff)
+            locs_meta.append(loc_meta)
+        seqid = quote(locs_meta[0].get('seqid', '.'))
+        source = quote(locs_meta[0].get('source', '.'))
+        type_ = locs_meta[0].get('type') or meta.get('type') or '.'
         for i, loc in enumerate(ft.locs):
-            if i == 0:
-                gff_meta = meta._gff
-                nscore = score
-                nphase = phase
-            else:
-                if loc._meta and hasattr(loc.meta, '_gff'):
-                    gff_meta = {k: v for k, v in loc.meta._gff.items() if meta._gff.get(k) != v}
-                else:
-                    gff_meta = {}
+            gff_meta = locs_meta[i]
+            for k in ('seqid', 'source', 'type'):
+                gff_meta.pop(k, None)
+            nscore = gff_meta.pop('score', '.')
+            nphase = gff_meta.pop('phase', '.')
+            if i > 0:
+                # only the attributes differing from the first line are repeated
+                gff_meta = {k: v for k, v in gff_meta.items() if locs_meta[0].get(k) != v}
                 gff_meta['ID'] = meta._gff.ID
-                nscore = gff_meta.pop('score', score)
-                nphase = gff_meta.pop('phase', phase)
             if len(gff_meta) == 0:
                 attrstr = '.'
             else:
